@@ -96,6 +96,12 @@ func Formats(c Case) (out Case) {
 	cons := objs(c, "cons")
 	n := num(c, "n")
 	cfg := obj(c, "cfg")
+	// a case enumerated by FormatsGen.tla carries the bytes of the file (text) and the tokens they were
+	// rendered from (ts): the text is fed to the parser as it is
+	given := str(c, "text")
+	if _, ok := c["ts"]; !ok {
+		out["ts"], out["m"], out["withTop"] = []string{}, 0, false
+	}
 	layout := func() *render.Layout { return render.NewLayout(num(cfg, "layout"), int64(num(cfg, "layoutSeed"))) }
 	clauses := func() [][]int {
 		cl := make([][]int, len(cons))
@@ -119,7 +125,14 @@ func Formats(c Case) (out Case) {
 						r["panic"], r["msg"] = true, fmt.Sprint(x)
 					}
 				}()
-				if str(c, "kind") == "cnf" {
+				if given != "" {
+					text = given
+					if str(c, "kind") == "cnf" {
+						pb, err = solver.ParseCNF(strings.NewReader(text))
+					} else {
+						pb, err = solver.ParseOPB(strings.NewReader(text))
+					}
+				} else if str(c, "kind") == "cnf" {
 					text = render.DIMACS(n, clauses(), layout())
 					pb, err = solver.ParseCNF(strings.NewReader(text))
 				} else {
@@ -145,7 +158,10 @@ func Formats(c Case) (out Case) {
 			}()
 			r["text"] = text
 		case "eparse": // explain.ParseCNF
-			text := render.DIMACS(n, clauses(), layout())
+			text := given
+			if given == "" {
+				text = render.DIMACS(n, clauses(), layout())
+			}
 			r["text"] = text
 			r["d"] = M{"n": 0, "nb": 0, "clauses": [][]int{}}
 			func() {
